@@ -1,5 +1,9 @@
 import PiqpProofs.Basic
 import PiqpModel.LinAlg
+import PiqpModel.Exec
+import PiqpProofs.Properties.C13
+import Mathlib.Data.Fintype.EquivFin
+import Mathlib.Algebra.BigOperators.Group.Finset.Basic
 import Mathlib.Tactic.Ring
 import Mathlib.Tactic.FieldSimp
 import Mathlib.Algebra.BigOperators.Fin
@@ -16,6 +20,8 @@ with these definitions on every pattern for n ≤ 5.
 
 set_option linter.unusedSectionVars false
 set_option linter.unusedSimpArgs false
+set_option linter.unusedVariables false
+set_option linter.unusedTactic false
 
 namespace Piqp.C14
 open Finset
@@ -154,4 +160,290 @@ example : ldlt 2 (#v[#v[(2 : ℚ), 1], #v[1, -3]] : Mat ℚ 2 2) =
     .ok (#v[#v[1, 0], #v[1/2, 1]], #v[2, -7/2]) := by
   decide +kernel
 
+
+/-! ## The staged solve on stored factors, permutations and block assembly: the model's sparse inner solver is exact -/
+
+theorem minorM_consL {n : Nat} (d : K) (l : Vec K n) (L' : Mat K n n) : minorM (consL d l L') = L' := by
+  apply Vector.ext; intro i hi
+  apply Vector.ext; intro j hj
+  have := consL_ss d l L' ⟨i, hi⟩ ⟨j, hj⟩
+  simp only [minorM, Mat.ofFn, Vector.getElem_ofFn]
+  simpa using this
+
+theorem tailV_consV {n : Nat} (a : K) (v : Vec K n) : tailV (consV a v) = v := by
+  apply Vector.ext; intro i hi
+  have := consV_succ a v ⟨i, hi⟩
+  simp only [tailV, Vector.getElem_ofFn]
+  simpa using this
+
+theorem col0_consL {n : Nat} (d : K) (l : Vec K n) (L' : Mat K n n) :
+    (Vector.ofFn fun i : Fin n => (consL d l L')[i.succ][(0 : Fin (n+1))]) = l := by
+  apply Vector.ext; intro i hi
+  have := consL_s0 d l L' ⟨i, hi⟩
+  simp only [Vector.getElem_ofFn]
+  simpa using this
+
+/-- the staged solve (`solveLD` on the stored factors) is the elimination recursion `ldltSolve` -/
+theorem solveLD_eq : ∀ (n : Nat) (A L : Mat K n n) (D b : Vec K n),
+    ldlt n A = .ok (L, D) → ldltSolve n A b = .ok (solveLD n L D b)
+  | 0, _, _, _, _, _ => by simp [ldltSolve, solveLD]
+  | n+1, A, L, D, b, h => by
+    simp only [ldlt] at h
+    simp only [ldltSolve]
+    split at h
+    · cases h
+    · rename_i hd
+      simp only [hd, Bool.false_eq_true, if_false]
+      cases hrec : ldlt n (schur A (colDiv A A[(0 : Fin (n+1))][(0 : Fin (n+1))]) A[(0 : Fin (n+1))][(0 : Fin (n+1))]) with
+      | error k => rw [hrec] at h; cases h
+      | ok LD =>
+        obtain ⟨L', D'⟩ := LD
+        rw [hrec] at h
+        simp only [Except.ok.injEq, Prod.mk.injEq] at h
+        obtain ⟨hL, hD⟩ := h
+        subst hL; subst hD
+        rw [solveLD_eq n _ L' D' _ hrec]
+        simp only [solveLD, col0_consL, minorM_consL, tailV_consV, consV_zero]
+
+/-- the index table is a permutation and `permInv` inverts it -/
+def IsPerm {N : Nat} (p : Vector (Fin N) N) : Prop := ∀ i : Fin N, p[(permInv p)[i]] = i
+
+theorem IsPerm.bij {N : Nat} {p : Vector (Fin N) N} (h : IsPerm p) : Function.Bijective (fun i : Fin N => p[i]) := by
+  have hs : Function.Surjective (fun i : Fin N => p[i]) := by
+    intro i
+    exact ⟨(permInv p)[i], h i⟩
+  exact ⟨(Finite.injective_iff_surjective (α := Fin N) (f := fun i : Fin N => p[i])).mpr hs, hs⟩
+
+theorem IsPerm.left {N : Nat} {p : Vector (Fin N) N} (h : IsPerm p) (j : Fin N) : (permInv p)[p[j]] = j :=
+  h.bij.1 (h (p[j]))
+
+theorem permSym_get {N : Nat} (M : Mat K N N) (p : Vector (Fin N) N) (i j : Fin N) : (permSym M p)[i][j] = M[p[i]][p[j]] := by
+  simp [permSym, Mat.ofFn]
+theorem permVec_get {N : Nat} (p : Vector (Fin N) N) (b : Vec K N) (j : Fin N) : (permVec p b)[j] = b[p[j]] := by
+  simp [permVec]
+theorem permtVec_get {N : Nat} (p : Vector (Fin N) N) (b : Vec K N) (i : Fin N) : (permtVec p b)[i] = b[(permInv p)[i]] := by
+  simp [permtVec]
+
+/-- a solution of the symmetrically permuted system, permuted back, solves the original system -/
+theorem perm_solve {N : Nat} (M : Mat K N N) (p : Vector (Fin N) N) (hp : IsPerm p) (rhs v : Vec K N)
+    (h : ∀ i : Fin N, ∑ j : Fin N, (permSym M p)[i][j] * v[j] = (permVec p rhs)[i]) :
+    ∀ r : Fin N, ∑ k : Fin N, M[r][k] * (permtVec p v)[k] = rhs[r] := by
+  intro r
+  obtain ⟨i, hr⟩ := hp.bij.2 r
+  beta_reduce at hr
+  subst hr
+  have hi := h i
+  simp only [permSym_get, permVec_get] at hi
+  have hre := hp.bij.sum_comp (fun k : Fin N => M[p[i]][k] * (permtVec p v)[k])
+  rw [← hre, ← hi]
+  refine Finset.sum_congr rfl fun j _ => ?_
+  beta_reduce
+  rw [permtVec_get]
+  congr 2
+  exact hp.left j
+
+section blocks
+variable {n p m : Nat}
+
+def ix (a : Fin n) : Fin (n + p + m) := ⟨a.val, by omega⟩
+def iy (t : Fin p) : Fin (n + p + m) := ⟨n + t.val, by omega⟩
+def iz (t : Fin m) : Fin (n + p + m) := ⟨n + p + t.val, by omega⟩
+
+theorem decode_ix (a : Fin n) : Blk.decode (ix (p := p) (m := m) a) = Blk.x a := by
+  simp [Blk.decode, ix, a.isLt]
+theorem decode_iy (t : Fin p) : Blk.decode (iy (n := n) (m := m) t) = Blk.y t := by
+  have h1 : ¬ (n + t.val < n) := by omega
+  have h2 : n + t.val < n + p := by omega
+  simp [Blk.decode, iy, h1, h2]
+theorem decode_iz (t : Fin m) : Blk.decode (iz (n := n) (p := p) t) = Blk.z t := by
+  have h1 : ¬ (n + p + t.val < n) := by omega
+  have h2 : ¬ (n + p + t.val < n + p) := by omega
+  unfold Blk.decode
+  split
+  · rename_i h; exact absurd h h1
+  · split
+    · rename_i h; exact absurd h h2
+    · congr 1
+      apply Fin.ext
+      simp only [iz]; omega
+
+/-- a sum over the assembled index range splits into the three blocks -/
+theorem sum_blocks (f : Fin (n + p + m) → K) :
+    ∑ k, f k = (∑ a : Fin n, f (ix a)) + (∑ t : Fin p, f (iy t)) + ∑ t : Fin m, f (iz t) := by
+  rw [Fin.sum_univ_add, Fin.sum_univ_add]
+  rfl
+
+
+theorem matOfFn_get' {r c : Nat} (f : Fin r → Fin c → K) (i : Fin r) (j : Fin c) : (Mat.ofFn f)[i][j] = f i j := by
+  simp [Mat.ofFn]
+theorem ofFn_get' {α : Type} {q : Nat} (f : Fin q → α) (i : Fin q) : (Vector.ofFn f)[i] = f i := by simp
+
+theorem assemble_get (be : Backend) (kb : KBlocks K n p m) (i j : Fin (n + p + m)) :
+    (assemble be kb)[i][j] =
+      match Blk.decode i, Blk.decode j with
+      | .x a, .x b => kb.xx[a][b]
+      | .x a, .y b => if be.keepY then kb.xy[a][b] else 0
+      | .y a, .x b => if be.keepY then kb.xy[b][a] else 0
+      | .x a, .z b => if be.keepZ then kb.xz[a][b] else 0
+      | .z a, .x b => if be.keepZ then kb.xz[b][a] else 0
+      | .y a, .y b => if a = b then (if be.keepY then kb.yy[a] else 1) else 0
+      | .z a, .z b => if a = b then (if be.keepZ then kb.zz[a] else 1) else 0
+      | .y _, .z _ => 0
+      | .z _, .y _ => 0 := by
+  unfold assemble
+  rw [matOfFn_get']
+  rfl
+
+theorem assembleRhs_get (be : Backend) (rx : Vec K n) (ry : Vec K p) (rz : Vec K m) (i : Fin (n + p + m)) :
+    (assembleRhs be rx ry rz)[i] =
+      match Blk.decode (n := n) (p := p) (m := m) i with
+      | .x a => rx[a]
+      | .y a => if be.keepY then ry[a] else 0
+      | .z a => if be.keepZ then rz[a] else 0 := by
+  unfold assembleRhs
+  rw [ofFn_get']
+  rfl
+
+theorem assemble_symm (be : Backend) (kb : KBlocks K n p m) (hxx : ∀ a b : Fin n, kb.xx[a][b] = kb.xx[b][a])
+    (i j : Fin (n + p + m)) : (assemble be kb)[i][j] = (assemble be kb)[j][i] := by
+  rw [assemble_get, assemble_get]
+  cases Blk.decode i <;> cases Blk.decode j <;> simp only
+  · exact hxx _ _
+  · rename_i a b; by_cases h : a = b
+    · subst h; simp
+    · have : ¬ b = a := fun e => h e.symm
+      simp [h, this]
+  · rename_i a b; by_cases h : a = b
+    · subst h; simp
+    · have : ¬ b = a := fun e => h e.symm
+      simp [h, this]
+
+
+theorem M_xx (be : Backend) (kb : KBlocks K n p m) (a c : Fin n) : (assemble be kb)[ix (p := p) (m := m) a][ix (p := p) (m := m) c] = kb.xx[a][c] := by
+  rw [assemble_get, decode_ix, decode_ix]
+theorem M_xy (be : Backend) (kb : KBlocks K n p m) (a : Fin n) (t : Fin p) :
+    (assemble be kb)[ix (p := p) (m := m) a][iy (n := n) (m := m) t] = if be.keepY then kb.xy[a][t] else 0 := by
+  rw [assemble_get, decode_ix, decode_iy]
+theorem M_xz (be : Backend) (kb : KBlocks K n p m) (a : Fin n) (t : Fin m) :
+    (assemble be kb)[ix (p := p) (m := m) a][iz (n := n) (p := p) t] = if be.keepZ then kb.xz[a][t] else 0 := by
+  rw [assemble_get, decode_ix, decode_iz]
+theorem M_yx (be : Backend) (kb : KBlocks K n p m) (t : Fin p) (c : Fin n) :
+    (assemble be kb)[iy (n := n) (m := m) t][ix (p := p) (m := m) c] = if be.keepY then kb.xy[c][t] else 0 := by
+  rw [assemble_get, decode_iy, decode_ix]
+theorem M_yy (be : Backend) (kb : KBlocks K n p m) (t u : Fin p) :
+    (assemble be kb)[iy (n := n) (m := m) t][iy (n := n) (m := m) u] = if t = u then (if be.keepY then kb.yy[t] else 1) else 0 := by
+  rw [assemble_get, decode_iy, decode_iy]
+theorem M_yz (be : Backend) (kb : KBlocks K n p m) (t : Fin p) (u : Fin m) :
+    (assemble be kb)[iy (n := n) (m := m) t][iz (n := n) (p := p) u] = 0 := by
+  rw [assemble_get, decode_iy, decode_iz]
+theorem M_zx (be : Backend) (kb : KBlocks K n p m) (t : Fin m) (c : Fin n) :
+    (assemble be kb)[iz (n := n) (p := p) t][ix (p := p) (m := m) c] = if be.keepZ then kb.xz[c][t] else 0 := by
+  rw [assemble_get, decode_iz, decode_ix]
+theorem M_zy (be : Backend) (kb : KBlocks K n p m) (t : Fin m) (u : Fin p) :
+    (assemble be kb)[iz (n := n) (p := p) t][iy (n := n) (m := m) u] = 0 := by
+  rw [assemble_get, decode_iz, decode_iy]
+theorem M_zz (be : Backend) (kb : KBlocks K n p m) (t u : Fin m) :
+    (assemble be kb)[iz (n := n) (p := p) t][iz (n := n) (p := p) u] = if t = u then (if be.keepZ then kb.zz[t] else 1) else 0 := by
+  rw [assemble_get, decode_iz, decode_iz]
+
+theorem split_x (w : Vec K (n + p + m)) (c : Fin n) : (splitSol w).1[c] = w[ix (p := p) (m := m) c] := by
+  simp only [splitSol, ofFn_get']; rfl
+theorem split_y (w : Vec K (n + p + m)) (t : Fin p) : (splitSol w).2.1[t] = w[iy (n := n) (m := m) t] := by
+  simp only [splitSol, ofFn_get']; rfl
+theorem split_z (w : Vec K (n + p + m)) (t : Fin m) : (splitSol w).2.2[t] = w[iz (n := n) (p := p) t] := by
+  simp only [splitSol, ofFn_get']; rfl
+
+
+/-- **C14 → C13: the model's sparse inner solver is exact.** Whenever `innerLDLT` (assemble the kept blocks, permute
+    symmetrically with the fill-reducing permutation, pivot-free LDLᵀ, solve, permute back, split) succeeds, the solve map it
+    returns satisfies the hypothesis `InnerExact` of C13's elimination theorem — for every back end, every permutation, every
+    symmetric (1,1) block. Together with `C13.factor_then_solve_exact` this makes the statement "the step solves the full
+    Newton system" unconditional for the model's sparse back ends. -/
+theorem innerLDLT_exact (be : Backend) (perm : Vector (Fin (n + p + m)) (n + p + m)) (hp : IsPerm perm)
+    (kb : KBlocks K n p m) (hxx : ∀ a b : Fin n, kb.xx[a][b] = kb.xx[b][a]) (slv : SolveFn K n p m)
+    (h : innerLDLT be perm kb = some slv) : C13.InnerExact be kb slv := by
+  unfold innerLDLT at h
+  cases hl : ldlt (n + p + m) (permSym (assemble be kb) perm) with
+  | error k => rw [hl] at h; cases h
+  | ok LD =>
+    obtain ⟨L, D⟩ := LD
+    rw [hl] at h
+    simp only [Option.some.injEq] at h
+    subst h
+    intro rx ry rz
+    have hs := solveLD_eq (n + p + m) _ L D (permVec perm (assembleRhs be rx ry rz)) hl
+    have hsym : ∀ i j : Fin (n + p + m), (permSym (assemble be kb) perm)[i][j] = (permSym (assemble be kb) perm)[j][i] := by
+      intro i j; rw [permSym_get, permSym_get]; exact assemble_symm be kb hxx _ _
+    have hc := ldltSolve_correct (n + p + m) _ _ _ hsym hs
+    have hw := perm_solve (assemble be kb) perm hp (assembleRhs be rx ry rz) _ hc
+    set w := permtVec perm (solveLD (n + p + m) L D (permVec perm (assembleRhs be rx ry rz))) with hwdef
+    refine ⟨fun j => ?_, fun hY t => ?_, fun hZ t => ?_⟩
+    · have := hw (ix j)
+      rw [sum_blocks, assembleRhs_get, decode_ix] at this
+      simp only [M_xx, M_xy, M_xz] at this
+      simp only [split_x, split_y, split_z]
+      rcases Bool.eq_false_or_eq_true be.keepY with hY | hY <;> rcases Bool.eq_false_or_eq_true be.keepZ with hZ | hZ <;>
+        simp only [hY, hZ, if_true, if_false, Bool.false_eq_true, zero_mul, Finset.sum_const_zero, add_zero] at this ⊢ <;>
+        exact this
+    · have := hw (iy t)
+      rw [sum_blocks, assembleRhs_get, decode_iy] at this
+      simp only [M_yx, M_yy, M_yz, hY, if_true, zero_mul, Finset.sum_const_zero, add_zero, ite_mul, Finset.sum_ite_eq, Finset.mem_univ] at this
+      simp only [split_x, split_y]
+      exact this
+    · have := hw (iz t)
+      rw [sum_blocks, assembleRhs_get, decode_iz] at this
+      simp only [M_zx, M_zy, M_zz, hZ, if_true, zero_mul, Finset.sum_const_zero, add_zero, ite_mul, Finset.sum_ite_eq, Finset.mem_univ] at this
+      simp only [split_x, split_z]
+      exact this
+
+
+section composite
+variable {K : Type} [Field K] [LinearOrder K]
+
+theorem coherent_xx_symm (be : Backend) (d : Data K n p m) (k : KKT K n p m) (hc : C13.Coherent be d k) (a b : Fin n) :
+    k.k.xx[a][b] = k.k.xx[b][a] := by
+  rw [hc.xx a b, hc.xx b a]
+  have hP : d.Psym[a][b] = d.Psym[b][a] := by
+    simp only [Data.Psym, C13.matOfFn_get]
+    by_cases h1 : a.val ≤ b.val <;> by_cases h2 : b.val ≤ a.val
+    · have : a = b := Fin.ext (Nat.le_antisymm h1 h2); subst this; rfl
+    · simp [h1, h2]
+    · simp [h1, h2]
+    · omega
+  have hA : (∑ t : Fin p, d.AT[a][t] * d.AT[b][t]) = ∑ t : Fin p, d.AT[b][t] * d.AT[a][t] :=
+    Finset.sum_congr rfl fun t _ => mul_comm _ _
+  have hG : (∑ t : Fin m, d.GT[a][t] * d.GT[b][t] / (k.s[t] * k.zinv[t] + k.delta)) =
+      ∑ t : Fin m, d.GT[b][t] * d.GT[a][t] / (k.s[t] * k.zinv[t] + k.delta) :=
+    Finset.sum_congr rfl fun t _ => by rw [mul_comm]
+  rw [hP, hA, hG]
+  by_cases hab : a = b
+  · subst hab; rfl
+  · have hba : ¬ b = a := fun e => hab e.symm
+    simp only [hab, hba, if_false]
+
+/-- **C13 + C14, unconditional for the model's sparse back ends**: factorise the coherent reduced matrix with the model's own
+    inner solver (pivot-free LDLᵀ of the symmetrically permuted assembled matrix) and solve: the step solves the full
+    regularised Newton system, for every permutation, whenever the factorisation meets no zero pivot. -/
+theorem sparse_factor_then_solve_exact (be : Backend) (st : KKTSettings K) (d : Data K n p m) (k : KKT K n p m)
+    (perm : Vector (Fin (n + p + m)) (n + p + m)) (hp : IsPerm perm)
+    (r old out : Step K n p m) (hcoh : C13.Coherent be d k) (hin : C13.Interior d k)
+    (h : KKT.solve be st d (KKT.regFactor be st d k false (innerLDLT be perm)) r old false = some out) :
+    let back := KKT.multiply d k out old
+    (∀ j : Fin n, back.x[j] = r.x[j]) ∧ (∀ t : Fin p, back.y[t] = r.y[t]) ∧ (∀ t : Fin m, back.z[t] = r.z[t]) ∧
+    (∀ t : Fin m, back.s[t] = r.s[t]) := by
+  cases hs : innerLDLT be perm k.k with
+  | none =>
+    have : (KKT.regFactor be st d k false (innerLDLT be perm)).fsol = none := by simp [KKT.regFactor, hs]
+    unfold KKT.solve at h
+    simp [this] at h
+  | some slv =>
+    have hf : (KKT.regFactor be st d k false (innerLDLT be perm)).fsol = some slv := by simp [KKT.regFactor, hs]
+    have hcoh' : C13.Coherent be d (KKT.regFactor be st d k false (innerLDLT be perm)) := ⟨hcoh.xx, hcoh.xy, hcoh.yy, hcoh.xz, hcoh.zz⟩
+    have hin' : C13.Interior d (KKT.regFactor be st d k false (innerLDLT be perm)) :=
+      ⟨hin.delta, hin.zinv, hin.s, hin.w, hin.zinv_lb, hin.s_lb, hin.w_lb, hin.zinv_ub, hin.s_ub, hin.w_ub⟩
+    have hex := innerLDLT_exact be perm hp k.k (coherent_xx_symm be d k hcoh) slv hs
+    have res := C13.solve_solves_full_system be st d (KKT.regFactor be st d k false (innerLDLT be perm)) r old out slv hf hcoh' hex hin' h
+    exact ⟨res.1, res.2.1, res.2.2.1, res.2.2.2.1⟩
+end composite
+end blocks
 end Piqp.C14
